@@ -78,10 +78,10 @@ def adaptive_scenarios(W, payload):
             c = r.choice([55, 60, 70]); w = r.choice([4, 5, 8]); hgt = r.choice(["8", "5", "12"])
             pts_x = [{"c": "0"}, {"c": str(c - w)}, {"c": str(c)}, {"c": str(c + w)}, {"c": "120"}]
             pts_y = [{"c": "0"}, {"c": "0"}, {"c": hgt}, {"c": "0"}, {"c": "0"}]
-            ops = [{"op": "model", "t0": "0", "t1": "120", "dt": r.choice(["120", "60", "40"]), "comps": ["X", "Y"], "inf": ["X"]},
-                   {"op": "init_pop", "dist": [["X", {"c": "0"}], ["Y", {"c": "0"}]]},
-                   {"op": "flow", "kind": "import", "name": "pulse", "param": {"sig": [{"t": 1}, pts_x, pts_y, {"c": "8"}]}, "dst": "X", "split": False},
-                   {"op": "flow", "kind": "transition", "name": "xy", "param": {"c": "1/50"}, "src": "X", "dst": "Y"}]
+            ops = [{"op": "model", "t0": "0", "t1": "120", "dt": r.choice(["120", "60", "40"]), "comps": ["P", "Q"], "inf": ["P"]},
+                   {"op": "init_pop", "dist": [["P", {"c": "0"}], ["Q", {"c": "0"}]]},
+                   {"op": "flow", "kind": "import", "name": "pulse", "param": {"sig": [{"t": 1}, pts_x, pts_y, "8"]}, "dst": "P", "split": False},
+                   {"op": "flow", "kind": "transition", "name": "xy", "param": {"c": "1/50"}, "src": "P", "dst": "Q"}]
             bump(out, "scenario:zero_then_pulse")
             I_ = build(ops)
             o = run(I_, "odeint")
